@@ -7,41 +7,76 @@ Local Open Scope N_scope.
 
 Ltac Zify.zify_post_hook ::= Z.div_mod_to_equations.
 
-Definition nospace (w : text) : Prop := Forall (fun c => is_space c = false) w.
+(** ASCII characters that are not white space *)
+Definition nospace (w : text) : Prop := Forall (fun c => is_space c = false /\ c < 128) w.
 Definition noeq (w : text) : Prop := Forall (fun c => c <> 61) w.
 
-(** ---- strings.Fields ---- *)
-Lemma fields_spaces ws r : spaces ws -> fields_loop (ws ++ r) None = fields_loop r None.
+(** ---- white-space runes ---- *)
+Lemma find_all_false {A : Type} (f : A -> bool) l : Forall (fun x => f x = false) l -> find f l = None.
+Proof. induction 1 as [|x l Hx Hl IH]; [reflexivity|]. cbn [find]. rewrite Hx. exact IH. Qed.
+
+Lemma space_width_ascii c r : c < 128 -> space_width (c :: r) = if is_space c then 1%nat else 0%nat.
 Proof.
-  induction 1 as [|c ws Hc Hws IH]; [reflexivity|]. cbn [app fields_loop]. rewrite Hc. exact IH.
+  intros Hc. unfold space_width. destruct (is_space c); [reflexivity|].
+  rewrite find_all_false; [reflexivity|].
+  unfold unicode_spaces. repeat constructor; cbn [has_prefix];
+    match goal with |- (?k =? c) && _ = false => replace (k =? c) with false by lia; reflexivity end.
+Qed.
+
+Lemma space_unit_nonempty u : space_unit u -> u <> [].
+Proof.
+  intros [[c [-> _]]|Hin]; [discriminate|]. unfold unicode_spaces in Hin.
+  repeat (destruct Hin as [<-|Hin]; [discriminate|]). destruct Hin.
+Qed.
+
+(** a white-space rune ends the current field *)
+Lemma fields_unit u r cur : space_unit u ->
+  fields_loop (u ++ r) cur 0 =
+    (match cur with Some w => [rev w] | None => [] end) ++ fields_loop r None 0.
+Proof.
+  intros [[c [-> Hc]]|Hin].
+  - cbn [app fields_loop space_width]. rewrite Hc. destruct cur; reflexivity.
+  - unfold unicode_spaces in Hin.
+    repeat (destruct Hin as [<-|Hin]; [destruct cur; reflexivity|]). destruct Hin.
+Qed.
+
+(** ---- strings.Fields ---- *)
+Lemma fields_spaces ws r : spaces ws -> fields_loop (ws ++ r) None 0 = fields_loop r None 0.
+Proof.
+  intros [us [-> Hus]]. induction Hus as [|u us Hu Hus IH]; [reflexivity|].
+  cbn [concat]. rewrite <- app_assoc. rewrite (fields_unit u _ None Hu). exact IH.
 Qed.
 
 Lemma fields_word_acc w : forall acc r, nospace w ->
-  fields_loop (w ++ r) (Some acc) = fields_loop r (Some (rev w ++ acc)).
+  fields_loop (w ++ r) (Some acc) 0 = fields_loop r (Some (rev w ++ acc)) 0.
 Proof.
   induction w as [|c w IH]; intros acc r Hw; [reflexivity|].
-  inversion Hw as [|? ? Hc Hw']; subst. cbn [app fields_loop]. rewrite Hc.
+  inversion Hw as [|? ? [Hc Hc128] Hw']; subst. cbn [app fields_loop].
+  rewrite (space_width_ascii c _ Hc128), Hc.
   rewrite IH by exact Hw'. cbn [rev]. rewrite <- app_assoc. reflexivity.
 Qed.
 
 Lemma fields_word w r : nospace w -> w <> [] ->
-  fields_loop (w ++ r) None = fields_loop r (Some (rev w)).
+  fields_loop (w ++ r) None 0 = fields_loop r (Some (rev w)) 0.
 Proof.
   intros Hw Hne. destruct w as [|c w]; [contradiction|].
-  inversion Hw as [|? ? Hc Hw']; subst. cbn [app fields_loop]. rewrite Hc.
+  inversion Hw as [|? ? [Hc Hc128] Hw']; subst. cbn [app fields_loop].
+  rewrite (space_width_ascii c _ Hc128), Hc.
   rewrite fields_word_acc by exact Hw'. reflexivity.
 Qed.
 
 Lemma fields_token_ws w ws r : nospace w -> w <> [] -> spaces ws -> ws <> [] ->
-  fields_loop (w ++ ws ++ r) None = w :: fields_loop r None.
+  fields_loop (w ++ ws ++ r) None 0 = w :: fields_loop r None 0.
 Proof.
-  intros Hw Hne Hws Hwsne. rewrite fields_word by assumption.
-  destruct ws as [|s ws]; [contradiction|]. inversion Hws as [|? ? Hs Hws']; subst.
-  cbn [app fields_loop]. rewrite Hs. rewrite rev_involutive. apply f_equal. apply fields_spaces. exact Hws'.
+  intros Hw Hne [us [-> Hus]] Hwsne. rewrite fields_word by assumption.
+  destruct us as [|u us]; [contradiction Hwsne; reflexivity|].
+  cbn [concat]. rewrite <- app_assoc.
+  rewrite (fields_unit u _ _ (Forall_inv Hus)). rewrite rev_involutive. cbn [app]. apply f_equal.
+  apply fields_spaces. exists us. split; [reflexivity | apply (Forall_inv_tail Hus)].
 Qed.
 
 Lemma fields_token_last w ws : nospace w -> w <> [] -> spaces ws ->
-  fields_loop (w ++ ws) None = [w].
+  fields_loop (w ++ ws) None 0 = [w].
 Proof.
   intros Hw Hne Hws. destruct ws as [|s ws].
   - rewrite fields_word by assumption. cbn [fields_loop]. rewrite rev_involutive. reflexivity.
@@ -72,7 +107,7 @@ Qed.
 
 (** ---- words ---- *)
 Lemma word_nospace w : word w -> nospace w.
-Proof. apply Forall_impl. intros c [_ [_ [H _]]]. exact H. Qed.
+Proof. apply Forall_impl. intros c [_ [H128 [H _]]]. split; assumption. Qed.
 
 Lemma word_noeq w : word w -> noeq w.
 Proof. apply Forall_impl. intros c [_ [_ [_ H]]]. exact H. Qed.
@@ -81,7 +116,7 @@ Lemma token_nospace e : cmd_entry_wf e -> nospace (enc_cmd_entry e) /\ enc_cmd_e
 Proof.
   destruct e as [k v|f]; cbn [cmd_entry_wf enc_cmd_entry].
   - intros [Hk Hv]. split.
-    + apply Forall_app. split; [apply word_nospace; exact Hk|]. constructor; [reflexivity | apply word_nospace; exact Hv].
+    + apply Forall_app. split; [apply word_nospace; exact Hk|]. constructor; [split; reflexivity | apply word_nospace; exact Hv].
     + destruct k; discriminate.
   - intros [Hf Hne]. split; [apply word_nospace; exact Hf | exact Hne].
 Qed.
@@ -95,7 +130,7 @@ Proof.
 Qed.
 
 Lemma fields_entries es : entries_wf es ->
-  fields_loop (flat_map (fun p => enc_cmd_entry (fst p) ++ snd p) es) None = map (fun p => enc_cmd_entry (fst p)) es.
+  fields_loop (flat_map (fun p => enc_cmd_entry (fst p) ++ snd p) es) None 0 = map (fun p => enc_cmd_entry (fst p)) es.
 Proof.
   induction es as [|[e ws] es IH]; [reflexivity|].
   cbn [entries_wf]. intros [He [Hws [Hne Hes]]].
